@@ -5,6 +5,13 @@
      <<"C", h, d>>  a confirm packet: deputy d's signature for block h,
      <<"T", 0, 0>>  one batch of NT valid transactions, none of them in a block (batches that mix transactions of every
                     status - executed, side-fork, pending, refused, boxes - around the blocks that package them: SyncTx.tla).
+   and, besides those, up to NBatch times
+     DeliverBatch(bs)  ONE block message holding the blocks bs[1..n] (2 <= n <= MaxBatch) in that order - any sequence over
+                    the segment, repetitions included: an answer to a block request that overlaps what the node already
+                    holds (held and not stable yet / held and stable / waiting in the cache, at the head, in the middle or
+                    at the tail of the message), a repeated answer, a descending one.  The blocks of it that are still in
+                    flight count as delivered; the others are duplicates.  The loop treats every block of the message
+                    exactly as it treats a block that arrives alone.
    Every Deliver(m) is the complete handling of one message by the network layer (network/
    protocol_manager.go: handleBlocksMsg + rcvBlockLoop, handleConfirmMsg, handleTxsMsg + its goroutines),
    TimerDrain is one effective firing of rcvBlockLoop's 500 ms queue timer: every cached block whose parent
@@ -22,9 +29,11 @@
      BugConfirmRace - Dev_ConfirmLostDuringInsert: a confirm that arrives while the engine is busy inserting its block
                      (after mergeConfirmsFromCache popped the early confirms, before the chain has the block) is pushed
                      into the confirm cache, where nothing ever looks for it again.
+     BugBatchBreak - the seeded class "a block of the message the chain already holds ends the message": the blocks
+                     behind a held, not yet stable block are neither inserted nor cached.
    Races = TRUE adds the action RaceInsert (that interleaving); with FALSE every message is handled on its own. *)
 EXTENDS SyncCacheOps, TLC
-CONSTANTS NB, Confs, NT, MaxDup, Races, BugAddMiddle, BugTxLoopVar, BugConfirmRace
+CONSTANTS NB, Confs, NT, MaxDup, Races, BugAddMiddle, BugTxLoopVar, BugConfirmRace, MaxBatch, NBatch, BugBatchBreak
 
 ND == 3
 Quorum == 2
@@ -44,8 +53,9 @@ VARIABLES inflight,  \* multiset of messages still to be delivered
           slots,     \* the block cache
           ccache,    \* the confirm cache: confirm message -> number of cached copies
           pool,      \* tx -> number of times it is pending in the pool
-          seenB, seenC, seenT   \* history: what has been delivered at least once
-vars == <<inflight, dups, has, sigs, stable, slots, ccache, pool, seenB, seenC, seenT>>
+          seenB, seenC, seenT,  \* history: what has been delivered at least once
+          nbatch     \* multi-block messages so far
+vars == <<inflight, dups, has, sigs, stable, slots, ccache, pool, seenB, seenC, seenT, nbatch>>
 
 Cur == IF has = {} THEN 0 ELSE MaxOf(has)
 Known(h) == h = 0 \/ h \in has
@@ -55,7 +65,7 @@ DrainEnabled == \E b \in Content(slots) : Insertable(b)
 Init == /\ inflight = [m \in Msgs |-> 1] /\ dups = 0
         /\ has = {} /\ sigs = [h \in 1..NB |-> {}] /\ stable = 0
         /\ slots = <<>> /\ ccache = [m \in CMsgs |-> 0] /\ pool = [t \in 1..NT |-> 0]
-        /\ seenB = {} /\ seenC = {} /\ seenT = FALSE
+        /\ seenB = {} /\ seenC = {} /\ seenT = FALSE /\ nbatch = 0
 
 \* the caches after the stable block moved (or not) from st to st2
 ClearedSlots(s, st, st2) == IF st2 # st THEN ClearUpTo(s, st2) ELSE s
@@ -74,7 +84,7 @@ InsertWith(h, s, cc, late) ==
        /\ ccache' = ClearedConfs(cc1, stable, st2)
 InsertInto(h, s) == InsertWith(h, s, ccache, {})
 
-Take(m) == inflight[m] > 0 /\ inflight' = [inflight EXCEPT ![m] = @ - 1] /\ UNCHANGED dups
+Take(m) == inflight[m] > 0 /\ inflight' = [inflight EXCEPT ![m] = @ - 1] /\ UNCHANGED <<dups, nbatch>>
 
 DeliverBlock(h) ==
     /\ Take(<<"B", h, 0>>) /\ seenB' = seenB \cup {h} /\ UNCHANGED <<pool, seenC, seenT>>
@@ -107,7 +117,7 @@ Deliver(m) == /\ m \in Msgs
 RaceInsert(h, d) ==
     /\ Races /\ h \in 1..NB /\ <<"C", h, d>> \in CMsgs
     /\ inflight[<<"B", h, 0>>] > 0 /\ inflight[<<"C", h, d>>] > 0
-    /\ inflight' = [inflight EXCEPT ![<<"B", h, 0>>] = @ - 1, ![<<"C", h, d>>] = @ - 1] /\ UNCHANGED dups
+    /\ inflight' = [inflight EXCEPT ![<<"B", h, 0>>] = @ - 1, ![<<"C", h, d>>] = @ - 1] /\ UNCHANGED <<dups, nbatch>>
     /\ h > stable /\ h \notin has /\ Known(h - 1) /\ Bid(h) \notin Content(slots)
     /\ seenB' = seenB \cup {h} /\ seenC' = seenC \cup {<<h, d>>} /\ UNCHANGED <<pool, seenT>>
     /\ IF BugConfirmRace THEN InsertWith(h, slots, ccache, {<<"C", h, d>>})
@@ -115,7 +125,7 @@ RaceInsert(h, d) ==
 
 Duplicate(m) == /\ m \in Msgs /\ inflight[m] > 0 /\ dups < MaxDup
                 /\ inflight' = [inflight EXCEPT ![m] = @ + 1] /\ dups' = dups + 1
-                /\ UNCHANGED <<has, sigs, stable, slots, ccache, pool, seenB, seenC, seenT>>
+                /\ UNCHANGED <<has, sigs, stable, slots, ccache, pool, seenB, seenC, seenT, nbatch>>
 
 \* the queue timer fires while some cached block's parent is known: all such blocks leave the cache and go to the engine
 TimerDrain ==
@@ -125,10 +135,35 @@ TimerDrain ==
            fresh == {HeightOf(b) : b \in P} \ has         \* on a linear segment: at most the block of height Cur+1
        IN IF fresh = {} THEN slots' = s1 /\ UNCHANGED <<has, sigs, stable, ccache>>
           ELSE InsertInto(MinOf(fresh), s1)
-    /\ UNCHANGED <<inflight, dups, pool, seenB, seenC, seenT>>
+    /\ UNCHANGED <<inflight, dups, pool, seenB, seenC, seenT, nbatch>>
+
+(* ---- one message with several blocks: the node state as a record, one block after the other (what DeliverBlock does) *)
+Node == [has |-> has, sigs |-> sigs, stable |-> stable, slots |-> slots, cc |-> ccache]
+InsertF(s, h) ==
+    LET early == {m[3] : m \in {x \in CMsgs : x[2] = h /\ s.cc[x] > 0}}
+        st2 == IF Enough(early, h) THEN h ELSE s.stable
+        cc1 == [m \in CMsgs |-> IF m[2] = h THEN 0 ELSE s.cc[m]]
+    IN [has |-> s.has \cup {h}, sigs |-> [s.sigs EXCEPT ![h] = early], stable |-> st2,
+        slots |-> ClearedSlots(s.slots, s.stable, st2), cc |-> ClearedConfs(cc1, s.stable, st2)]
+BlockF(s, h) == IF h <= s.stable \/ h \in s.has THEN s                                   \* stale
+                ELSE IF h = 1 \/ (h - 1) \in s.has THEN InsertF(s, h)                     \* parent known: insert now
+                ELSE [s EXCEPT !.slots = AddOK(@, Bid(h))]                                \* cache (a block that waits already: no change)
+RECURSIVE BatchF(_, _, _)
+BatchF(s, bs, i) == IF i > Len(bs) THEN s
+                    ELSE IF BugBatchBreak /\ bs[i] \in s.has /\ bs[i] > s.stable THEN s   \* gives up on the rest of the message
+                    ELSE BatchF(BlockF(s, bs[i]), bs, i + 1)
+Batches == UNION {[1..n -> 1..NB] : n \in 2..MaxBatch}
+DeliverBatch(bs) ==
+    /\ bs \in Batches /\ nbatch < NBatch /\ nbatch' = nbatch + 1
+    /\ LET hs == {bs[i] : i \in DOMAIN bs}  r == BatchF(Node, bs, 1) IN
+       /\ inflight' = [m \in Msgs |-> IF m[1] = "B" /\ m[2] \in hs /\ inflight[m] > 0 THEN inflight[m] - 1 ELSE inflight[m]]
+       /\ seenB' = seenB \cup hs
+       /\ has' = r.has /\ sigs' = r.sigs /\ stable' = r.stable /\ slots' = r.slots /\ ccache' = r.cc
+    /\ UNCHANGED <<dups, pool, seenC, seenT>>
 
 Next == (\E m \in Msgs : Deliver(m)) \/ (\E m \in Msgs : Duplicate(m)) \/ TimerDrain
         \/ (\E h \in 1..NB, d \in 1..ND : RaceInsert(h, d))
+        \/ (\E bs \in Batches : DeliverBatch(bs))
 Spec == Init /\ [][Next]_vars
 
 (* ------------------------------------------------------------------ C20 *)
@@ -152,5 +187,5 @@ TxOnce == (\A t \in 1..NT : pool[t] <= 1) /\ (seenT => \A t \in 1..NT : pool[t] 
 ChainLinear == has = 1..Cur /\ stable \in 0..Cur
 Forward == [][has \subseteq has' /\ stable <= stable']_vars
 TypeOK == /\ inflight \in [Msgs -> 0..(1 + MaxDup)] /\ dups \in 0..MaxDup /\ has \subseteq 1..NB /\ stable \in 0..NB
-          /\ ccache \in [CMsgs -> 0..(1 + MaxDup)] /\ pool \in [1..NT -> 0..(1 + MaxDup)]
+          /\ ccache \in [CMsgs -> 0..(1 + MaxDup)] /\ pool \in [1..NT -> 0..(1 + MaxDup)] /\ nbatch \in 0..NBatch
 ====
